@@ -40,7 +40,7 @@ def _hs(prop, tier, seed, replay):
     return seqfamily.check(prop, fam_hs.family_for(prop), tier, seed, replay)
 
 
-CHECKS.update({p: _hs for p in ("C02", "C14", "C16")})
+CHECKS.update({p: _hs for p in ("C02", "C07", "C14", "C16")})
 
 
 def _c20(prop, tier, seed, replay):
